@@ -1,8 +1,288 @@
 import GB.Base.Proto
+import GB.C17.Spec
 namespace GB.C17
 open GB GB.Proto
 
-/-- stub: replaced when the C17 slice is built -/
-def handle : Handler := fun _ _ => "BAD c17 unimplemented"
+/-! Line protocol of area `c17` (see harness/c17):
+  fuzz ops      `http <tag> <script> <hexreq>`, `ws <tag> <script> <hextarget> <hexheaders> <end> <frames…>`
+                 => `res=… key=value …` (observed outcome)
+  differential  `mdkey`, `gwsmsg`, `gwrecv`, `rslice`, `rpcname`, `dtidx`, `fkey`, `wserr`, `wrap`, `hst`, `tfp`
+-/
+
+def kvGet (toks : List String) (k : String) : Option String :=
+  (toks.find? (fun t => t.startsWith (k ++ "="))).map (fun t => (t.drop (k.length + 1)).toString)
+
+def parseScript (s : String) : Option Script :=
+  -- n<k>c<code>w<0|1>
+  match s.toList with
+  | 'n' :: rest =>
+    let (nd, r1) := rest.span Char.isDigit
+    match r1 with
+    | 'c' :: r2 =>
+      let (cd, r3) := r2.span Char.isDigit
+      match r3 with
+      | ['w', w] =>
+        match (String.ofList nd).toNat?, (String.ofList cd).toNat? with
+        | some n, some c =>
+          match Code.ofNat? c with
+          | some code => some { n := n, code := code, wait := w == '1' }
+          | none => none
+        | _, _ => none
+      | _ => none
+    | _ => none
+  | _ => none
+
+def parseTag : String → Tag
+  | "badjson" => .badjson
+  | "badparam" => .badparam
+  | _ => .none
+
+def parseRes : String → Option Res
+  | "ok" => some .ok | "panic" => some .panic | "crash" => some .panic
+  | "hang" => some .hang | "reject" => some .reject | _ => none
+
+def parseBody : String → BodyKind
+  | "star" => .star | "field" => .field | _ => .none
+
+def parseCt : String → CtClass
+  | "json" => .json | "sse" => .json | "text" => .text | "grpcweb" => .grpcweb | "none" => .none | _ => .other
+
+def b1 (o : Option String) : Bool := o == some "1"
+def natOr (o : Option String) (d : Nat) : Nat := (o.bind String.toNat?).getD d
+
+def showList (l : List String) : String := ",".intercalate l
+
+def entryName : Entry → String
+  | .http => "http" | .ws => "ws" | .grpcweb => "grpcweb" | .grpcws => "grpcws"
+
+def verdict (viol mism : List String) (ok : String) : String :=
+  if !viol.isEmpty then s!"VIOL {showList viol}"
+  else if !mism.isEmpty then s!"DIFF model={showList mism}"
+  else ok
+
+def handleHttp (script : String) (o : List String) : String :=
+  match kvGet o "res" >>= parseRes, parseScript script with
+  | none, _ => "BAD res"
+  | _, none => "BAD script"
+  | some res, some scr =>
+    if res == .reject then "OK b=nethttp-reject"
+    else
+      match (kvGet o "hc" >>= parseHex), (kvGet o "hu" >>= parseHex), (kvGet o "hct" >>= parseHex) with
+      | some hc, some hu, some hct =>
+        let entry := dispatch hc hu hct (b1 (kvGet o "sp"))
+        let route := (kvGet o "route").getD "none"
+        let c : HttpCase := {
+          res := res, entry := entry, tag := parseTag ((kvGet o "tag").getD "none"),
+          firstJSONInvalid := kvGet o "jp" == some "0",
+          hasTimeout := b1 (kvGet o "to"), bodyUnreadable := kvGet o "jp" == some "rd",
+          routerHit := match kvGet o "rt" with | some "grpc" => some true | some "http" => some false | _ => none,
+          routeOK := route == "ok", cs := b1 (kvGet o "cs"), ss := b1 (kvGet o "ss"),
+          body := parseBody ((kvGet o "bp").getD "none"), streams := natOr (kvGet o "streams") 0, script := scr,
+          hijacked := b1 (kvGet o "hj"), status := natOr (kvGet o "st") 0, ct := parseCt ((kvGet o "ct").getD "other"),
+          wellFormed := b1 (kvGet o "wf"), lateData := kvGet o "wf" == some "2", headersValid := (kvGet o "hv").getD "1" == "1",
+          trailers := natOr (kvGet o "tr") 0, grpcStatus := (kvGet o "gs") >>= String.toNat? }
+        let cls := if c.status == 0 then "none" else s!"{c.status / 100}xx"
+        let inv := if invalidOnTranscodedRoute c then "-invalid" else ""
+        let nt := if c.routeOK || c.entry != .http then " nt" else ""
+        verdict (httpViolations c) (httpMismatches c) s!"OK{nt} b={entryName entry}-{cls}{inv}"
+      | _, _, _ => "BAD http fields"
+
+def parseEnd : String → Option End
+  | "close" => some .close | "drop" => some .drop | "wait" => some .wait | _ => none
+
+def parseClose (s : String) : CloseObs :=
+  match s with
+  | "none" => .none | "timeout" => .timeout | "eof" => .eof | "proto" => .proto | "nostatus" => .noStatus
+  | _ => match s.toNat? with | some k => .code k | none => .proto
+
+def closeName : CloseObs → String
+  | .code k => s!"{k}" | .noStatus => "nostatus" | .none => "none" | .timeout => "timeout" | .eof => "eof" | .proto => "proto"
+
+def handleWs (script : String) (o : List String) : String :=
+  match kvGet o "res" >>= parseRes, parseScript script, kvGet o "end" >>= parseEnd with
+  | some res, some scr, some fin =>
+    let route := (kvGet o "route").getD "none"
+    let c : WsCase := {
+      res := res, grpcws := b1 (kvGet o "g"), tag := parseTag ((kvGet o "tag").getD "none"), fin := fin,
+      hasTimeout := b1 (kvGet o "to"), clientInterfered := b1 (kvGet o "ci"),
+      routeOK := route == "ok", routerHit := (kvGet o "rt").getD "none" != "none", cs := b1 (kvGet o "cs"),
+      body := parseBody ((kvGet o "bp").getD "none"), script := scr,
+      handshake := natOr (kvGet o "hs") 0, handshakeWF := b1 (kvGet o "hwf"),
+      messages := natOr (kvGet o "n") 0, messagesWF := (kvGet o "wfm").getD "1" == "1",
+      close := parseClose ((kvGet o "cc").getD "none"), closeReasonUTF8 := (kvGet o "cu").getD "1" == "1",
+      reasonCode := match kvGet o "rc" with | some "na" => none | x => x,
+      lastIsTrailer := b1 (kvGet o "lt"),
+      firstJSONInvalid := match kvGet o "fj" with | some "1" => some true | some "0" => some false | _ => none }
+    let kind := if c.grpcws then "grpcws" else "ws"
+    let inv := if wsMustReportInvalid c then "-invalid" else ""
+    let nt := if c.handshake == 101 then " nt" else ""
+    verdict (wsViolations c) (wsMismatches c) s!"OK{nt} b={kind}-hs{c.handshake}-cc{closeName c.close}{inv}"
+  | _, _, _ => "BAD ws fields"
+
+def showMdKey : MdKeyResult → String
+  | .skip => "skip" | .drop => "drop" | .md k => s!"md:{toHex k}"
+
+def showFault : Fault → String
+  | .indexOutOfRange => "index" | .sliceBounds => "slice" | .closeOfClosedChannel => "close" | .outOfFuel => "fuel"
+
+def b01 (b : Bool) : String := if b then "1" else "0"
+
+/-- model output vs implementation output for the differential ops: a model FAULT is a predicted panic. -/
+def cmp (impl : String) (model : Except Fault String) (br : String) : String :=
+  match model with
+  | .error f => if impl.startsWith "PANIC" then s!"VIOL panic model-fault={showFault f}" else s!"DIFF model=FAULT-{showFault f}"
+  | .ok m =>
+    if impl.startsWith "PANIC" then s!"VIOL panic impl={impl} model={m}"
+    else if impl == m then s!"OK nt b={br}" else s!"DIFF model={m}"
+
+def joinSlash (cs : List Bytes) : Bytes := (cs.intersperse [47]).flatten
+
+/-- the schema of message `c17.All` as far as `traverseFieldPath` can see it (0 = All, 1 = Nested, 2 = Timestamp, 3 = Struct, 4 = Any) -/
+def lookupAll (m : Nat) (name : Bytes) : Option FieldKind :=
+  let n := bytesToString name
+  match m with
+  | 0 =>
+    if n == "f_nested" || n == "o_nested" then some (.message 1)
+    else if n == "w_ts" then some (.message 2)
+    else if n == "w_struct" then some (.message 3)
+    else if n == "w_any" then some (.message 4)
+    else if n == "f_string" || n == "f_int32" || n == "f_enum" || n == "o_string" || n == "p_int32" then some .scalar
+    else if n == "r_nested" || n == "r_int32" || n == "m_ss" || n == "m_sn" then some .repeated
+    else none
+  | 1 =>
+    if n == "child" then some (.message 1)
+    else if n == "name" || n == "n" || n == "color" then some .scalar
+    else if n == "tags" then some .repeated
+    else none
+  | 2 => if n == "seconds" || n == "nanos" then some .scalar else none
+  | 3 => if n == "fields" then some .repeated else none
+  | _ => if n == "type_url" || n == "value" then some .scalar else none
+
+def showTraverse : Traverse → String
+  | .whole m => s!"whole:{m}" | .field m n => s!"field:{m}:{toHex n}"
+  | .errEmptyElem => "err:empty" | .errNoField => "err:nofield" | .errNotMessage => "err:notmsg"
+
+def parseErrKind (s : String) : Option Err :=
+  if s == "nil" then some .nil
+  else if s == "plain" || s.startsWith "wrapst:" then some .plain
+  else if s.startsWith "st:" then ((s.drop 3).toString.toNat? >>= Code.ofNat?).map .status
+  else none
+
+def handleCore : List String → List String → String
+  | ["mdkey", hp, hk], out =>
+    match parseHex hp, parseHex hk with
+    | some p, some k => cmp (" ".intercalate out) ((mdKey p k).map showMdKey)
+        (match mdKey p k with | .ok .skip => "mdkey-skip" | .ok .drop => "mdkey-drop" | _ => "mdkey-md")
+    | _, _ => "BAD hex"
+  | ["gwsmsg", "1", cl, hd], out =>
+    match parseHex hd with
+    | some d =>
+      let m := (gwsOnMessage (cl == "1") d).map (fun o =>
+        let (dl, data, err) := match o.delivered with
+          | some (d, e) => ("1", toHex d, b01 e) | none => ("0", "x", "0")
+        s!"closed={b01 o.closed} dl={dl} data={data} err={err} ec={b01 o.closeEvents}")
+      cmp (" ".intercalate out) m (if d.length > 6 then "gwsmsg-deliver" else "gwsmsg-short")
+    | none => "BAD hex"
+  | ["gwsmsg", "0", cl, _], out =>
+    -- metadata frame: textproto parsing is not modelled; both permitted outcomes are panic-free
+    let impl := " ".intercalate out
+    if impl.startsWith "PANIC" then s!"VIOL panic impl={impl}"
+    else if cl == "1" then (if impl == "noop" then "OK b=gwsmd-closed" else s!"DIFF model=noop")
+    else if impl == "md-accepted" || impl == "md-rejected-trailer" then s!"OK nt b=gws{impl}" else s!"DIFF model=md-accepted|md-rejected-trailer"
+  | ["gwrecv", hb], out =>
+    match parseHex hb with
+    | some b =>
+      let impl := " ".intercalate out
+      match gwRecv b with
+      | .error f => if impl.startsWith "PANIC" then s!"VIOL panic model-fault={showFault f}" else s!"DIFF model=FAULT-{showFault f}"
+      | .ok r =>
+        if impl.startsWith "PANIC" then s!"VIOL panic impl={impl}"
+        else
+          let permitted : List String := match r with
+            | .eof => ["n=0 eof=1 code=-1 unk=x"]
+            | .unavailable n => [s!"n={n} eof=0 code=14 unk=x"]
+            | .empty n => [s!"n={n} eof=0 code=-1 unk=x"]
+            | .payload n d => [s!"n={n} eof=0 code=-1 unk={toHex d}", s!"n={n} eof=0 code=2 unk=x", s!"n={n} eof=0 code=13 unk=x"]
+          if permitted.contains impl then
+            s!"OK nt b=gwrecv-{match r with | .eof => "eof" | .unavailable _ => "short" | .empty _ => "empty" | .payload _ _ => "payload"}"
+          else s!"DIFF model={"|".intercalate permitted}"
+    | none => "BAD hex"
+  | ["rslice", hp, hv], out =>
+    match parseHex hp, parseHex hv with
+    | some p, some v =>
+      let m := (routeSlices p v).map (fun r => match r with
+        | .invalid => "inv" | .notFound => "nf"
+        | .comps cs verb => if verb == v then s!"ok:{toHex (joinSlash cs)}" else "nf")
+      cmp (" ".intercalate out) m (match routeSlices p v with | .ok (.comps _ _) => "rslice-comps" | .ok .notFound => "rslice-verbonly" | _ => "rslice-inv")
+    | _, _ => "BAD hex"
+  | ["rpcname", hn], out =>
+    match parseHex hn with
+    | some n =>
+      let m := (parseRPCName n).map (fun (s, me, ok) => if ok then s!"ok:{toHex s}:{toHex me}" else "bad")
+      cmp (" ".intercalate out) m "rpcname"
+    | none => "BAD hex"
+  | ["dtidx", hs], out =>
+    match parseHex hs with
+    | some s => cmp (" ".intercalate out) ((decodeTimeoutIdx s).map showOptInt) "dtidx"
+    | none => "BAD hex"
+  | ["fkey", hk, hp], out =>
+    match parseHex hk, parseHex hp with
+    | some k, some p =>
+      let m := (filterKey k p).map (fun (k1, isBin) => s!"key {toHex (toLowerAscii k1)} bin={b01 isBin}")
+      cmp (" ".intercalate out) m "fkey"
+    | _, _ => "BAD hex"
+  | ["wserr", kind], out =>
+    let e : Option WsErr :=
+      if kind == "nil" then some .nil else if kind == "text" then some .expectedText
+      else if kind == "binary" then some .expectedBinary else if kind == "plain" then some .plain
+      else if kind.startsWith "st:" then ((kind.drop 3).toString.toNat? >>= Code.ofNat?).map .status
+      else none
+    match e with
+    | some e =>
+      let (c, form) := websocketError e
+      let valid := validCloseCode c
+      let r := cmp (" ".intercalate out) (.ok s!"code={c} form={b01 form}") "wserr"
+      if valid then r else s!"VIOL invalid close code {c}"
+    | none => "BAD kind"
+  | ["wstrunc", hm], out =>
+    match parseHex hm with
+    | some m => cmp (" ".intercalate out) ((truncateCloseReason m).map toHex) (if m.length > 123 then "wstrunc-cut" else "wstrunc-fit")
+    | none => "BAD hex"
+  | ["wrap", dir, kind], out =>
+    match parseErrKind kind with
+    | some e =>
+      let r := if dir == "req" then requestTranscodingError e else responseTranscodingError e
+      let m := match r with | none => "nil" | some c => s!"code={c.toNat} http={httpStatusFromCode c}"
+      cmp (" ".intercalate out) (.ok m) s!"wrap-{dir}"
+    | none => "BAD kind"
+  | ["hst", c], out =>
+    match c.toNat? with
+    | some n =>
+      let m := match Code.ofNat? n with | some code => s!"{httpStatusFromCode code}" | none => "500"
+      cmp (" ".intercalate out) (.ok m) "hst"
+    | none => "BAD code"
+  | ["tfp", hp], out =>
+    match parseHex hp with
+    | some p => cmp (" ".intercalate out) ((traverseFieldPath lookupAll 0 p).map showTraverse) "tfp"
+    | none => "BAD hex"
+  | _, _ => "BAD c17 line"
+
+/-- PANIC (recovered in the handler, or the whole worker process died) and HANG are violations whatever
+    else is known about the case — also for the differential ops, whose models never fault. -/
+def crashVerdict (out : List String) : Option String :=
+  match kvGet out "res" with
+  | some "panic" => some s!"VIOL panic {(kvGet out "msg").getD ""}"
+  | some "crash" => some s!"VIOL panic process-died {(kvGet out "msg").getD ""}"
+  | some "hang" => some s!"VIOL hang {(kvGet out "where").getD ""}"
+  | _ => none
+
+def handle : Handler := fun i o =>
+  match crashVerdict o with
+  | some v => v
+  | none =>
+    match i with
+    | "http" :: _ :: script :: _ => handleHttp script o
+    | "ws" :: _ :: script :: _ => handleWs script o
+    | _ => handleCore i o
 
 end GB.C17
